@@ -113,6 +113,10 @@ def run_packages(ctx, pks):
             d = os.path.join(b.root, "c_" + pk["id"] + v, pk["cwd"])
             nset = len(pk["setup"])
             ok = all(x["rc"] == 0 for x in r["runs"])
+            for x in r["runs"]:
+                # a run that was killed / timed out / hit a full disk says nothing about the property
+                if x["rc"] < 0 or any(t in x["stderr"] for t in ("no space left", "signal: killed", "cannot allocate memory", "timeout")):
+                    raise core.InfraError("shoot %s did not run to completion (rc %s): %s" % (" ".join(x["args"]), x["rc"], x["stderr"][-300:]))
             gen = {}
             marker = ".shoot%s." % pk["cmd"]
             for rel in r["written"]:
@@ -120,7 +124,8 @@ def run_packages(ctx, pks):
                 if reld.startswith("..") or marker not in os.path.basename(reld):
                     continue
                 gen[os.path.basename(reld)] = os.path.join(d, reld)
-            pk["res"][v] = {"ok": ok, "files": gen, "runs": r["runs"][nset:], "setup_ok": all(x["rc"] == 0 for x in r["runs"][:nset])}
+            pk["res"][v] = {"ok": ok, "files": gen, "runs": r["runs"][nset:], "setup_ok": all(x["rc"] == 0 for x in r["runs"][:nset]),
+                            "stderr": " | ".join(x["stderr"][-300:] for x in r["runs"][nset:] if x["rc"] != 0)}
             paths += list(gen.values())
     desc = detgen.describe(ctx, paths)
     for pk in pks:
@@ -182,7 +187,8 @@ def build_cases(ctx, pks, res):
 
         def add(cid, area, payload, im, v, key):
             sexp = dump(["case", cid, area] + payload)
-            cases.append({"id": cid, "sexp": sexp, "cmd": cmdline(v), "key": key, "pk": pk, "files": src, "variant": v})
+            cases.append({"id": cid, "sexp": sexp, "cmd": cmdline(v), "key": key, "pk": pk, "files": src, "variant": v,
+                          "stderr": rs[v].get("stderr", "")})
             impl[cid] = im
 
         types = pk["types"]
@@ -272,6 +278,7 @@ def run(ctx, obl):
             if c["id"] == cid:
                 v["sources"] = c["files"]
                 v["cmd"] = c["cmd"]
+                v["stderr_of_failed_runs"] = c.get("stderr", "")
     res.extra["finding_cases"] = [{"sig": v.get("sig"), "cmd": v.get("cmd"), "keys": v.get("differing_keys"),
                                    "case": v["case"][:60]} for v in res.violations[:16]]
     res.hist("packages", "total", len(pks))
